@@ -10,7 +10,7 @@ Definition sk_process_input : string := "defer recoverAsError; send InputDataPar
 Definition sk_execute_validation : string := "send OpaValidationStart; call Eval; send OpaValidationDone; return".
 Definition sk_process_result : string := "defer recoverAsError; send BuildReportStart; call BuildReport; send BuildReportDone; return".
 Definition sk_validate_with_configuration : string := "call ProcessProfile; if err != nil { call CloseEventChan; return }; return call ValidateCompiledWithConfiguration".
-Definition sk_validate_compiled_with_configuration : string := "call processInputOnce; if err != nil { call CloseEventChan; return }; call executeValidation; if err != nil { call CloseEventChan; return }; call processResult; if err != nil { call CloseEventChan; return }; call CloseEventChan; return".
+Definition sk_validate_compiled_with_configuration : string := "call ProcessInput; if err != nil { call CloseEventChan; return }; call executeValidation; if err != nil { call CloseEventChan; return }; call processResult; if err != nil { call CloseEventChan; return }; call CloseEventChan; return".
 Definition sk_validate : string := "return call ValidateWithConfiguration, call DefaultReportConfiguration".
 Definition sk_validate_compiled : string := "return call ValidateCompiledWithConfiguration, call DefaultReportConfiguration".
 Definition sk_compile_profile : string := "call ProcessProfile; if err != nil { call CloseEventChan; return }; return".
